@@ -433,7 +433,7 @@ class Model:
             ro_constr_list = []
             for piece in constr.pieces:
                 ro_constr_list.extend(self.ro_to_roc(piece))
-        elif isinstance(constr, DecCvxConstr):
+        elif isinstance(constr, (DecCvxConstr, DecPCvxConstr)):
             ro_constr_list = self.ro_to_roc(constr)
         elif constr.ctype == 'R':
             ro_constr_list = self.ro_to_roc(constr)
